@@ -3,6 +3,7 @@ package sim
 import (
 	"bytes"
 	"context"
+	"encoding/binary"
 	"fmt"
 	"net"
 	"runtime"
@@ -12,8 +13,14 @@ import (
 	"github.com/ethereum/go-ethereum/common/hexutil"
 	"github.com/ethereum/go-ethereum/p2p/enode"
 	"github.com/ethereum/go-ethereum/rlp"
+	"github.com/protolambda/zrnt/eth2/beacon/capella"
+	zcommon "github.com/protolambda/zrnt/eth2/beacon/common"
+	"github.com/protolambda/zrnt/eth2/configs"
+	"github.com/protolambda/ztyp/codec"
+	"github.com/protolambda/ztyp/tree"
 	"github.com/zen-eth/shisui/portalwire"
 	pingext "github.com/zen-eth/shisui/portalwire/ping_ext"
+	tbeacon "github.com/zen-eth/shisui/types/beacon"
 )
 
 // C01 — no remote input can crash or wedge the node.
@@ -44,6 +51,11 @@ func genC01(r *prng) *plan {
 		default:
 			p.Ops = append(p.Ops, opSpec{K: "utpraw", N: []int64{int64(r.intn(4)), int64(r.u64() >> 1)}})
 		}
+	}
+	if r.chance(12) {
+		// a node that follows the chain (its light client has a finalized header) is offered historical
+		// summaries that verify against that header, under keys of the right and of other lengths, twice each
+		p.Ops = append(p.Ops, opSpec{K: "summaries", N: []int64{int64(r.intn(6)), int64(r.u64() >> 1)}})
 	}
 	return p
 }
@@ -234,6 +246,8 @@ func runC01(seed uint64) {
 			c01VictimCall(w, V, ATT, respFor, vecs, vv, opi, op, rs)
 		case "offer":
 			c01AttackerOffer(w, V, ATT, vecs, vv, opi, op, rs)
+		case "summaries":
+			c01Summaries(w, V, ATT, vecs, vv, opi, op, rs)
 		}
 		if len(V.panics) > 0 {
 			break
@@ -635,4 +649,93 @@ func c01Selector(rs *prng, netName string) byte {
 		return byte(0x10 + rs.intn(5))
 	}
 	return byte(rs.intn(0x30))
+}
+
+// c01Summaries: the beacon network's validator accepts historical summaries only against the finalized state
+// root of the node's light client. The harness gives the light client a finalized header whose state root is the
+// one a genuine summaries vector proves against (a node in sync), then the attacker offers that content under
+// the genuine key and under keys with bytes appended or cut off, each twice.
+func c01Summaries(w *world, V *fullNodeT, ATT *puppet, vecs []vector, vv []uint8, opi int, op opSpec, rs *prng) {
+	ni := V.nets["beacon"]
+	if ni == nil || V.lc == nil {
+		w.op("summaries#%d skipped: no beacon network / light client", opi)
+		return
+	}
+	// content built by the harness in the encoding this node decodes (a six-node proof of which it folds five)
+	f := &tbeacon.ForkedHistoricalSummariesWithProof{}
+	copy(f.ForkDigest[:], []byte{0x6a, 0x95, 0xa1, 0xa9})
+	f.HistoricalSummariesWithProof.EPOCH = zcommon.Epoch(300000 + rs.intn(1000))
+	for i := 0; i < 1+rs.intn(4); i++ {
+		var hs capella.HistoricalSummary
+		copy(hs.BlockSummaryRoot[:], rs.bytes(32))
+		copy(hs.StateSummaryRoot[:], rs.bytes(32))
+		f.HistoricalSummariesWithProof.HistoricalSummaries = append(f.HistoricalSummariesWithProof.HistoricalSummaries, hs)
+	}
+	for i := range f.HistoricalSummariesWithProof.Proof.Proof {
+		copy(f.HistoricalSummariesWithProof.Proof.Proof[i][:], rs.bytes(32))
+	}
+	var cbuf bytes.Buffer
+	if err := f.Serialize(configs.Mainnet, codec.NewEncodingWriter(&cbuf)); err != nil {
+		fatal2("c01 summaries: " + err.Error())
+	}
+	vec := &vector{Key: append([]byte{0x14}, make([]byte, 8)...), Val: cbuf.Bytes()}
+	binary.LittleEndian.PutUint64(vec.Key[1:], uint64(f.HistoricalSummariesWithProof.EPOCH))
+	// the state root this proof leads to (generalized index 59: depth 5, index 27)
+	v := f.HistoricalSummariesWithProof.HistoricalSummaries.HashTreeRoot(configs.Mainnet, tree.GetHashFn())
+	for i, ix := 0, uint64(27); i < 5; i, ix = i+1, ix>>1 {
+		sib := zcommon.Root(f.HistoricalSummariesWithProof.Proof.Proof[i])
+		if ix&1 == 1 {
+			v = h2(sib, v)
+		} else {
+			v = h2(v, sib)
+		}
+	}
+	hdr := &zcommon.BeaconBlockHeader{Slot: zcommon.Slot(uint64(f.HistoricalSummariesWithProof.EPOCH) * 32), StateRoot: v}
+	V.lc.Store.FinalizedHeader, V.lc.Store.OptimisticHeader = hdr, hdr
+	key := append([]byte{}, vec.Key...)
+	switch op.n(0) {
+	case 1:
+		key = append(key, 0)
+	case 2:
+		key = append(key, rs.bytes(1+rs.intn(3))...)
+	case 3:
+		key = key[:len(key)-1]
+	case 4:
+		key = append(key, rs.bytes(24)...)
+	case 5:
+		key = key[:1+rs.intn(8)]
+	}
+	for round := 0; round < 2; round++ {
+		t := w.spawn("att-summaries", func() error {
+			resp, err := ATT.talk(V.self(), ni.id, encOffer([][]byte{key}))
+			if err != nil {
+				return nil
+			}
+			ver, _ := highestCommon(vv, vv, true)
+			a := decAccept(ver, resp)
+			if !a.ok || !a.anyAccepted() {
+				return nil
+			}
+			ctx, cancel := context.WithTimeout(context.Background(), 20*time.Second)
+			defer cancel()
+			st, err := ATT.utp.DialWithCid(ctx, V.self(), a.connID)
+			if err != nil {
+				return nil
+			}
+			defer st.Close()
+			wctx, wcancel := context.WithTimeout(context.Background(), 60*time.Second)
+			defer wcancel()
+			st.Write(wctx, frameItems([][]byte{vec.Val}))
+			w.res.Probes["summaries_stream_sent"]++
+			return nil
+		})
+		w.runUntil(func() bool { return t.done }, 30*time.Second)
+		w.runFor(3 * time.Second)
+		if len(V.panics) > 0 {
+			break
+		}
+	}
+	w.op("summaries#%d key of %d bytes (variant %d) offered twice to a node whose finalized state root the content proves against", opi, len(key), op.n(0))
+	w.abstract("summaries k%d", op.n(0))
+	w.probe("offer_summaries")
 }
